@@ -177,3 +177,55 @@ func H_C05_sched() {
 		zz.Assert(atoi(v) == cur+1+i, "C05: sequence numbers on the wire are not consecutive and ascending (gap, duplicate or reordering)")
 	}
 }
+
+// H_C05_buffer: small outbound buffers with a concurrent writer. One goroutine sends n messages one
+// after the other (optionally a second goroutine sends one more) while a consumer takes the
+// messages from the outbound queue the way the connection writer does. Every schedule must put
+// 1,2,3,... on the wire in order. params: [role, buf, n, second sender, preemption bound, rotation]
+func H_C05_buffer() {
+	role, buf, n, second := zz.Param(0), zz.Param(1), zz.Param(2), zz.Param(3)
+	zz.Class("role=" + strconv.Itoa(role) + "/buf=" + strconv.Itoa(buf) + "/n=" + strconv.Itoa(n) + "/second=" + strconv.Itoa(second))
+	zz.TimerStub(true)
+	fxBuf = buf
+	st := memory.NewStorage()
+	var f *fx
+	var got [][]byte
+	total := n + second + 1
+	zz.Assume(buf >= 1) // the logon exchange below runs before the writer exists
+	lg := fixgen.CreateLogon("0", 30)
+	if role == 0 {
+		f = newAcceptor(st, 1, 60, 0, "0")
+		setHdr(lg.Header(), "CLI", "SRV", 1)
+	} else {
+		f = newInitiator(st, 30, "0", "user", "pw", 0)
+		setHdr(lg.Header(), "SRV", "CLI", 1)
+	}
+	_ = f.h.VerifServe(wire(lg))
+	zz.Assume(f.s.IsLogged())
+	zz.Yield() // the two timer goroutines park on their timers
+	zz.PreemptionBound(zz.Param(4))
+	zz.CoarseSchedules(true)
+	zz.PickRotation(zz.Param(5))
+	zz.ExploreSchedules(true)
+	zz.Go(func() {
+		for len(got) < total {
+			got = append(got, <-f.h.Outgoing())
+		}
+	})
+	zz.Go(func() {
+		for i := 0; i < n; i++ {
+			_ = f.s.Send(fixgen.CreateTestRequest(strconv.Itoa(i)))
+		}
+	})
+	if second == 1 {
+		zz.Go(func() { _ = f.s.Send(fixgen.CreateHeartbeat()) })
+	}
+	zz.WaitAll2(2)
+	zz.ExploreSchedules(false)
+	zz.Reach("done")
+	zz.Assert(len(got) == total, "C05: the number of messages on the wire differs from the number sent")
+	for i, o := range got {
+		v, _ := fieldOf(o, "34")
+		zz.Assert(atoi(v) == i+1, "C05: with a small outbound buffer the sequence numbers reach the wire out of order")
+	}
+}
